@@ -20,7 +20,7 @@ pub open spec fn tree(t: Tag) -> T decreases t, 0nat {
     match t {
         Tag::Integer(i) => T::P(i.class, i.id, int_octets(i.inner as int)),
         Tag::Enumerated(i) => T::P(i.class, i.id, int_octets(i.inner as int)),
-        Tag::Boolean(b) => T::P(b.class, b.id, seq![if b.inner { 0xffu8 } else { 0x00u8 }]),
+        Tag::Boolean(b) => T::P(b.class, b.id, if b.inner { seq![0xffu8] } else { seq![0x00u8] }),
         Tag::Null(n) => T::P(n.class, n.id, Seq::empty()),
         Tag::OctetString(o) => T::P(o.class, o.id, o.inner@),
         Tag::Sequence(s) => T::C(s.class, s.id, trees(s.inner@, s.inner@.len())),
@@ -50,7 +50,7 @@ pub proof fn lemma_st_trees_len(s: Seq<StructureTag>, n: nat)
 // universal shapes
 pub open spec fn t_int(x: int) -> T { T::P(TagClass::Universal, 2, int_octets(x)) }
 pub open spec fn t_enum(x: int) -> T { T::P(TagClass::Universal, 10, int_octets(x)) }
-pub open spec fn t_bool(b: bool) -> T { T::P(TagClass::Universal, 1, seq![if b { 0xffu8 } else { 0x00u8 }]) }
+pub open spec fn t_bool(b: bool) -> T { T::P(TagClass::Universal, 1, if b { seq![0xffu8] } else { seq![0x00u8] }) }
 pub open spec fn t_os(b: Seq<u8>) -> T { T::P(TagClass::Universal, 4, b) }
 pub open spec fn t_seq(k: Seq<T>) -> T { T::C(TagClass::Universal, 16, k) }
 pub open spec fn t_set(k: Seq<T>) -> T { T::C(TagClass::Universal, 17, k) }
@@ -73,4 +73,26 @@ pub broadcast proof fn lemma_trees3(s: Seq<Tag>, n: nat) requires n == 3, s.len(
 pub broadcast proof fn lemma_trees4(s: Seq<Tag>, n: nat) requires n == 4, s.len() == 4 ensures #[trigger] trees(s, n) == seq![tree(s[0]), tree(s[1]), tree(s[2]), tree(s[3])]
 { reveal_with_fuel(trees, 6); assert(trees(s, 4) =~= seq![tree(s[0]), tree(s[1]), tree(s[2]), tree(s[3])]); }
 pub broadcast group group_trees { lemma_trees0, lemma_trees1, lemma_trees2, lemma_trees3, lemma_trees4 }
+}
+
+// ---- BER (X.690 8.1): identifier octets, definite length octets, contents.  `ident` and `len_octets` are the
+// leaf writers' contracts (Kani: K-lber C07.write_type_single_octet_ids_le30, C07.write_length_minimal_definite_all_usize)
+pub uninterp spec fn ident(c: TagClass, s: TagStructure, id: u64) -> Seq<u8>;
+pub uninterp spec fn len_octets(n: nat) -> Seq<u8>;
+pub open spec fn ber_t(t: T) -> Seq<u8> decreases t, 0nat {
+    match t {
+        T::P(c, id, v) => ident(c, TagStructure::Primitive, id) + len_octets(v.len()) + v,
+        T::C(c, id, k) => { let body = ber_ts(k, k.len()); ident(c, TagStructure::Constructed, id) + len_octets(body.len()) + body },
+    }
+}
+pub open spec fn ber_ts(s: Seq<T>, n: nat) -> Seq<u8> decreases s, n {
+    if n == 0 || n > s.len() { Seq::empty() } else { ber_ts(s, (n - 1) as nat) + ber_t(s[n - 1]) }
+}
+// ber_ts only looks at the first n elements
+pub proof fn lemma_ber_ts_prefix(a: Seq<T>, b: Seq<T>, n: nat)
+    requires n <= a.len(), n <= b.len(), forall|j: int| 0 <= j < n ==> a[j] == b[j],
+    ensures ber_ts(a, n) == ber_ts(b, n),
+    decreases n,
+{
+    if n > 0 { lemma_ber_ts_prefix(a, b, (n - 1) as nat); }
 }
